@@ -32,6 +32,37 @@ pub mod util {
     { unimplemented!() }
 }
 
+// ---- the real util::parse_header_value, for panic freedom (C14): what it RETURNS stays the uninterpreted te_elems above ----
+//@include prelude/trim.rs
+//@include prelude/split.rs
+#[verifier::external_type_specification]
+#[verifier::external_body]
+pub struct ExParseFloatError(core::num::ParseFloatError);
+// ASSUMED: f32::from_str may accept or refuse anything, and any float may come out (NaN and the infinities included)
+pub assume_specification[ <f32 as FromStr>::from_str ](s: &str) -> (r: Result<f32, core::num::ParseFloatError>);
+
+/// PROVED: a text that starts with `q=` starts with two ASCII characters (so byte offset 2 is character offset 2)
+pub broadcast proof fn lemma_q_prefix(s: Seq<char>)
+    ensures #![trigger s.take(2)] (s.len() >= 2 && s.take(2) == "q="@) ==> forall|i: int| 0 <= i < 2 ==> (#[trigger] s[i] as u32) < 128
+{
+    reveal_strlit("q=");
+    if s.len() >= 2 && s.take(2) == "q="@ {
+        assert(s.take(2)[0] == 'q' && s.take(2)[1] == '=');
+        assert(s[0] == 'q' && s[1] == '=');
+        assert(('q' as u32) < 128 && ('=' as u32) < 128);
+    }
+}
+//@fn src/util/mod.rs parse_header_value as parse_header_value_real ret r props C14
+//@iterator params
+//@spec
+    // O-TE-PARSE-SAFE (C14): no input makes it panic: the `[2..]` slice is taken only behind `starts_with("q=")`, every
+    // `?` / `unwrap`-free; nothing is claimed here about the list it returns
+    ensures true,
+//@loopentry 1
+                broadcast use axiom_starts_with_str, lemma_trim_start_unique, lemma_q_prefix;
+                proof { reveal_strlit("q="); }
+//@endfn
+
 // key of the descending sort on the quality value (witness of the total preorder the comparator must implement)
 pub open spec fn verif_sort_key(e: (&str, f32)) -> int { -fkey(e.1) }
 
